@@ -203,6 +203,20 @@ Theorem C06_percent_sum : forall files rows total,
 Proof. exact percent_sum. Qed.
 Print Assumptions C06_percent_sum.
 
+(* All reports agree on the totals: the lines the coverage export lists as used
+   (unused) over the counted files are the lines the summary shows in non-empty
+   platform sets (in the empty set), their sum is the Total SLOC, and the
+   unpruned root of the tree carries the very same dict. *)
+Theorem C06_reports_agree : forall files, Forall file_ok files -> links_ok files -> (forall f, In f files -> fpath f <> []) ->
+  let used := export_total eused files in
+  let unused := export_total eunused files in
+  sum_if (fun k => negb (is_empty k)) (get_setmap files) = used /\
+  sum_if is_empty (get_setmap files) = unused /\
+  sm_total (get_setmap files) = used + unused /\
+  tsm (files_tree false files) = get_setmap files.
+Proof. exact reports_agree. Qed.
+Print Assumptions C06_reports_agree.
+
 (* non-vacuity: two directories, a file used by two platforms with an unused block,
    a header used by one platform, an unused header, and a symlink to a member *)
 Definition C06_ex_node (ls : list Z) (ps : pset) : node := {| nlines := ls; nnum := Z.of_nat (List.length ls); nplat := ps |}.
